@@ -286,15 +286,21 @@ def step(t, k):
     return t
 
 
-def threshold_event(ev, s, o, m, qs, gam, h=1, extra_targets=(), form=None, only_targets=None, order=None):
+def threshold_event(ev, s, o, m, qs, gam, h=1, extra_targets=(), form=None, only_targets=None, order=None,
+                    with_inf=False):
     """One vectorised threshold_at_<m> query per method, with the counts the same
     object reports at, just below and just above every returned threshold."""
     rs = sorted(set(only_targets)) if only_targets is not None else sorted(set(targets(o, m, qs)) | set(extra_targets))
+    BIGR = Fraction(1000)
+    if with_inf:                  # targets -inf / +inf travel as -1000 / +1000 (any r <= 0 resp. r >= 1 is the same claim)
+        rs = [-BIGR] + rs + [BIGR]
     e = ev("threshold", h=h, m=m, r=[[f.numerator, f.denominator] for f in rs],
            lin=[], lo=[], hi=[], c={"lin": [], "lo": [], "hi": []},
            lo_is_score=[], hi_is_score=[], alias_same=True, scalar_same=True, targets_untouched=True)
     try:
         rf = np.array([f.numerator / f.denominator for f in rs])
+        if with_inf:
+            rf[0], rf[-1] = -np.inf, np.inf
         S = rel_scores(o, m)
         proj = ThrProjector(gam, S)
         fn = getattr(s, "threshold_at_" + m)
